@@ -115,14 +115,22 @@ def regexType : Bytes := [114, 101, 103, 101, 120]
 
 def isDigit (c : UInt8) : Bool := 48 ≤ c && c ≤ 57
 
+/-- `directive.endsKeyword`: the keyword the line begins with ends at `n` — the line ends there, or a byte follows that
+may follow a keyword (blank, line end, `#`, `/`); a word that merely begins with a keyword is not a directive (F75) -/
+def endsKeyword (line : Bytes) (n : Nat) : Bool :=
+  match line[n]? with
+  | none => true
+  | some c => c == 32 || c == 9 || c == 13 || c == 10 || c == 35 || c == 47
+
 /-- `directive.IsStartWithDirective` over the names of `Gen.Kind` -/
 def isStartWithDirective (line : Bytes) : Bool :=
   if line.length < 3 then false
   else
-    (match line with
+    ((match line with
      | a :: b :: c :: _ => (49 ≤ a && a ≤ 53) && isDigit b && isDigit c
-     | _ => false)
-    || Kind.all.any fun k => k != Kind.HTTPResponseCode && (k.name.toUTF8.toList).isPrefixOf line
+     | _ => false) && endsKeyword line 3)
+    || Kind.all.any fun k => k != Kind.HTTPResponseCode && (k.name.toUTF8.toList).isPrefixOf line &&
+        endsKeyword line (k.name.toUTF8.toList).length
 
 /-- `Bytes.LineFrom(start)`: up to the next '\n' -/
 def lineFrom (d : Src) (start : Nat) : Option Bytes :=
